@@ -68,8 +68,10 @@ package fans
 //@   ensures same(fan.RpmMovingAvg, rpm)
 //@   modifies fan.RpmMovingAvg
 
+// C17: the device files an hwmon fan reads and writes are the configured paths (PwmPath, PwmEnablePath, RpmInputPath)
 //@ func (*HwMonFan).GetPwm
 //@   params (fan)
+//@   props C17
 //@   returns (result, err)
 //@   requires hwWF(fan)
 //@   ensures err == nil ==> result == fileInt[hwPwmPath(fan)] && fan.Pwm == result
@@ -79,6 +81,8 @@ package fans
 
 //@ func (*HwMonFan).GetRpm
 //@   params (fan)
+//@   props C17
+//@   ensures[C17.rpmpath C10] err == nil ==> result == fileInt[fan.Config.HwMon.RpmInputPath]
 //@   ghostret lastRpmRead := result
 //@   ensures lastRpmRead == result
 //@   returns (result, err)
@@ -90,6 +94,7 @@ package fans
 
 //@ func (*HwMonFan).SetPwm
 //@   params (fan, pwm)
+//@   props C17
 //@   requires hwWF(fan)
 //@   ghostdo pwmWrites[fan] := pwmWrites[fan] + 1
 //@   ghostdo lastPwm[fan] := pwm
@@ -103,6 +108,7 @@ package fans
 //@ ghost var enableReads int
 //@ func (*HwMonFan).GetPwmEnabled
 //@   params (fan)
+//@   props C17
 //@   requires hwWF(fan)
 //@   ensures result1 == nil ==> result0 == fileInt[hwEnablePath(fan)]
 //@   ensures lastReadFailed == (result1 != nil)
@@ -272,7 +278,7 @@ package fans
 // ---- control mode -----------------------------------------------------------------------------------
 //@ func (*HwMonFan).SetPwmEnabled
 //@   params (fan, value)
-//@   props C03
+//@   props C03 C17
 //@   requires hwWF(fan)
 //@   ensures[C03.readback C05] err == nil ==> fileInt[hwEnablePath(fan)] == value || lastReadFailed
 //@   ensures[C05.tolerant C03] enableReads != old(enableReads) && lastReadFailed ==> err == nil
